@@ -453,6 +453,7 @@ fn apply(base: &[u8], sl: &[(usize, usize, String)], faults: &[Value], seed: u64
                 edits.push((s0, e0 - s0, v.into_bytes()));
             }
             "bomb" => return Some(bomb(f["name"].as_str()?)),
+            "run" => return Some(runfile(f["place"].as_str()?, f["filler"].as_str()?, f["n"].as_u64()? as usize)),
             "xrefcut" => {
                 // the startxref block moved in front of the cross-reference section it names (the offset follows), and
                 // that section cut after `lines` lines: a reader led by a valid pointer to a section that ends at end of file
@@ -570,6 +571,75 @@ fn bomb(name: &str) -> Vec<u8> {
         }
         _ => b"%PDF-1.7\n".to_vec(),
     }
+}
+
+/// A small valid file (catalog, page tree, one page, one content stream, classic table; all offsets right) with a RUN of n
+/// copies of a token every reader must skip - a comment, a blank, a line end, a NUL - at one syntactic place.
+fn runfile(place: &str, filler: &str, n: usize) -> Vec<u8> {
+    let unit: &[u8] = match filler {
+        "comment" => b"%\n",
+        "commentcr" => b"%x\r",
+        "space" => b" ",
+        "nl" => b"\n",
+        "crlf" => b"\r\n",
+        "semicolon" => b";",
+        "rparen" => b")",
+        "lbrace" => b"{",
+        "rbrace" => b"}",
+        "latin1" => b"\xE9",
+        "bell" => b"\x07",
+        "c1" => b"\x85",
+        "ff" => b"\x0C",
+        _ => b"\0",
+    };
+    let run = unit.repeat(n);
+    let at = |p: &str| -> &[u8] { if p == place { &run } else { b"" } };
+    let mut out: Vec<u8> = Vec::new();
+    out.extend_from_slice(at("before_header"));
+    out.extend_from_slice(b"%PDF-1.4\n");
+    let mut offs = Vec::new();
+    let content: Vec<u8> = [b"q 1 0 0 1 5 5 cm ".as_slice(), at("content"), b" 0 0 m 9 9 l S Q".as_slice()].concat();
+    let bodies: Vec<Vec<u8>> = vec![
+        [b"<< ".as_slice(), at("dict_inside"), b"/Type /Catalog /Pages ".as_slice(), at("dict_value"), b" 2 0 R >>".as_slice()].concat(),
+        [b"<< /Type /Pages /Kids [".as_slice(), at("array_inside"), b" 3 0 R ] /Count 1 >>".as_slice()].concat(),
+        b"<< /Type /Page /Parent 2 0 R /MediaBox [0 0 100 100] /Contents 4 0 R >>".to_vec(),
+        [format!("<< /Length {} >>", content.len()).as_bytes(), at("before_stream_kw"), b"\nstream\n".as_slice(), &content, b"\nendstream".as_slice()].concat(),
+    ];
+    for (i, b) in bodies.iter().enumerate() {
+        if i == 2 {
+            out.extend_from_slice(at("between_objs"));
+        }
+        offs.push(out.len());
+        out.extend_from_slice(format!("{} 0 obj\n", i + 1).as_bytes());
+        if i == 2 {
+            out.extend_from_slice(at("obj_before_value"));
+        }
+        out.extend_from_slice(b);
+        if i == 2 {
+            out.extend_from_slice(at("before_endobj"));
+        }
+        out.extend_from_slice(b"\nendobj\n");
+    }
+    let x = out.len();
+    out.extend_from_slice(b"xref\n");
+    out.extend_from_slice(at("xref_after_kw"));
+    out.extend_from_slice(b"0 5\n0000000000 65535 f \n");
+    for (i, o) in offs.iter().enumerate() {
+        if i == 2 {
+            out.extend_from_slice(at("xref_between_entries"));
+        }
+        out.extend_from_slice(format!("{:010} 00000 n \n", o).as_bytes());
+    }
+    out.extend_from_slice(at("before_trailer_kw"));
+    out.extend_from_slice(b"trailer\n");
+    out.extend_from_slice(at("before_trailer_dict"));
+    out.extend_from_slice(b"<< /Size 5 /Root 1 0 R >>\nstartxref\n");
+    out.extend_from_slice(at("after_startxref_kw"));
+    out.extend_from_slice(format!("{x}\n").as_bytes());
+    out.extend_from_slice(at("before_eof"));
+    out.extend_from_slice(b"%%EOF\n");
+    out.extend_from_slice(at("after_eof"));
+    out
 }
 
 // ---------------------------------------------------------------------------------------------------------------
